@@ -572,6 +572,9 @@ def rule_r7(p, res):
     r.floor(40, "op/funnel bodies")
 
 
+# rules of sibling properties over code paths this property's statement also quantifies over (DESIGN.md section 3, shared rules)
+ALSO = ['C02.R2', 'C04.R2', 'C09.R2', 'C09.R3', 'C13.R2']
+
 RULES = [rule_r1, rule_r2, rule_r3, rule_r4, rule_r5, rule_r6, rule_r7]
 
 WITNESSES = [
